@@ -24,10 +24,6 @@ NAN_TABLE = {
         ('G5', 'brick arithmetic on positive prices: block edges are products of the first (positive) price with positive factors'),
     ('<methods::renko::Renko as core::method::Method>::next', 'Div', 'self.last_block_lower'):
         ('G5', 'as above'),
-    ('<methods::renko::Renko as core::method::Method>::next', 'Div', 'self.brick_size'):
-        ('G2', 'brick_size is accepted by Renko::new only inside [EPSILON, 1): never zero, never written afterwards'),
-    ('<indicators::fisher_transform::FisherTransformInstance<M> as core::indicator::instance::IndicatorInstance>::next', 'Div', 'self.cfg.zone'):
-        ('G2', 'validate() requires zone > 0.0 and the configuration is immutable after init'),
     ('<indicators::fisher_transform::FisherTransformInstance<M> as core::indicator::instance::IndicatorInstance>::next', 'Div', 'Sub(.., ..)'):
         ('G4', 'guarded by highest.to_bits() == lowest.to_bits(): bit equality coincides with numeric equality except for +0.0/-0.0, excluded for positive prices'),
     ('<indicators::money_flow_index::MoneyFlowIndexInstance as core::indicator::instance::IndicatorInstance>::next', 'recip', 'Add(1.0, mfr)'):
@@ -214,7 +210,7 @@ def instance_float_int_facts(ctx):
                 if v[2] is not None and vn not in v[2]:
                     continue
                 for fn, c in fl.items():
-                    cv = s0.cells[c]
+                    cv = ex.fview(s0, s0.cells[c])
                     key = (v[1], fn)
                     if key in written:
                         continue
@@ -475,4 +471,103 @@ def s16b_dispersion_sign(ctx):
                 r.sample({'method': short, 'returns': tree_str(pf.ret)[:100], 'sign': '>= 0 by construction'})
     # next() of these returns peek() (checked by S11); nothing else to do here
     r.floor('dispersion measures', 3, n)
+    return r
+
+
+# ---------------------------------------------------------------------------------------
+# S16c: band ordering by construction
+
+# indicator instance -> positions of (upper, middle, lower) in the values array
+BANDS_BY_CONSTRUCTION = {
+    'indicators::bollinger_bands::BollingerBandsInstance': (0, 1, 2),
+}
+
+
+def s16c_band_order(ctx):
+    """upper = fma(x, s, m), lower = fma(x, -s, m) with x >= 0 and s >= 0: rounding is monotone, so upper >= m >= lower in floating
+    point too (x*s >= 0 exactly, one rounding of m + x*s)."""
+    from paths import all_path_facts
+    f = ctx.facts('default')
+    m = Model(f)
+    r = RuleResult('S16c', 'bands built as middle +- k*dispersion with k >= 0 (validate) and dispersion >= 0 (S16b) are ordered upper >= middle >= lower')
+    facts = instance_float_int_facts(ctx)
+    nonneg_peek = set()
+    for adt in DISPERSION:
+        nonneg_peek.add(adt)
+    n = 0
+    for ii in m.instance_impls:
+        adt = m.adt_path_of_impl(ii)
+        if adt not in BANDS_BY_CONSTRUCTION:
+            continue
+        n += 1
+        up, mid, lowp = BANDS_BY_CONSTRUCTION[adt]
+        b = m.body(m.impl_fn_path(ii, 'next'))
+        short = adt.rsplit('::', 1)[-1]
+        cfg_adt = None
+        for v in f.adts[adt]['variants']:
+            for fl in v['fields']:
+                if fl['name'] == 'cfg' and fl['tyj']['t'] == 'adt':
+                    cfg_adt = fl['tyj']['def']
+        # find the values array handed to IndicatorResult::new
+        done = False
+        for bi, t in b.calls():
+            if not (callee_def(t['callee']) or '').endswith('IndicatorResult::new'):
+                continue
+            arr = b.tree_of_operand(t['args'][0])
+            while arr[0] in ('ref', 'deref', 'cast'):
+                arr = arr[1] if arr[0] != 'cast' else arr[2]
+            if arr[0] != 'agg' or arr[1] != 'array':
+                continue
+            vals = arr[3]
+            key = short + '|band-order'
+            r.inst(key)
+            done = True
+            U, M_, L = vals[up], vals[mid], vals[lowp]
+
+            def decomp(t):
+                """fma(x, s, m) / m + x*s / m - x*s  ->  (x, s, m, sign)"""
+                while t[0] in ('ref', 'deref'):
+                    t = t[1]
+                if t[0] == 'call' and t[4].endswith('::mul_add') and len(t[2]) == 3:
+                    x, s, mm = t[2]
+                    sign = 1
+                    while s[0] in ('ref', 'deref'):
+                        s = s[1]
+                    if s[0] == 'un' and s[1] == 'Neg':
+                        s = s[2]
+                        sign = -1
+                    return _norm(x), _norm(s), _norm(mm), sign, x, s
+                if t[0] == 'bin' and t[1] in ('Add', 'Sub') and t[3][0] == 'bin' and t[3][1] == 'Mul':
+                    return _norm(t[3][2]), _norm(t[3][3]), _norm(t[2]), (1 if t[1] == 'Add' else -1), t[3][2], t[3][3]
+                return None
+            du, dl = decomp(U), decomp(L)
+            if not du or not dl or du[3] != 1 or dl[3] != -1 or du[:3] != dl[:3] or du[2] != _norm(M_):
+                r.violate(key + '|shape', '%s::next no longer builds its bands as middle + k*x / middle - k*x around the value it reports as middle' % short, b.file, b.term_line(bi))
+                continue
+            x_tree, s_tree = du[4], du[5]
+            # x: output of next() of a method whose peek is non-negative by construction
+            xs = x_tree
+            while xs[0] in ('ref', 'deref'):
+                xs = xs[1]
+            x_ok = False
+            if xs[0] == 'call' and xs[4].endswith('Method>::next'):
+                for d in DISPERSION:
+                    if d in xs[4]:
+                        x_ok = True
+            x_ok = x_ok or nonneg(x_tree, facts, adt, f)
+            # s: configuration factor >= 0
+            chain = _field_chain(s_tree)
+            s_ok = False
+            if chain and chain[0] == 'cfg' and cfg_adt:
+                fact = facts.get((cfg_adt, chain[-1]))
+                s_ok = bool(fact and fact[0] == 'float' and not fact[3] and fact[1] >= 0)
+            if not x_ok:
+                r.violate(key + '|dispersion-sign', 'the dispersion term of %s is %s, not non-negative by construction' % (short, tree_str(x_tree)[:60]), b.file, b.term_line(bi))
+            if not s_ok:
+                r.violate(key + '|factor-sign', 'the band factor of %s (%s) is not bounded >= 0 by validate()' % (short, tree_str(s_tree)[:40]), b.file, b.term_line(bi))
+            if x_ok and s_ok:
+                r.sample({'indicator': short, 'upper': 'fma(x, k, middle)', 'lower': 'fma(x, -k, middle)', 'x': tree_str(x_tree)[:50], 'k': '.'.join(chain)})
+        if not done:
+            r.violate(short + '|band-order|no-array', 'cannot find the values array of %s::next' % short, b.file, b.line)
+    r.floor('band indicators ordered by construction', len(BANDS_BY_CONSTRUCTION), n)
     return r
